@@ -83,6 +83,8 @@ const (
 	tsPopulated
 	tsDefaultCwd
 	tsExplicitEmpty // WithTargetDir("") given explicitly, target = working directory
+	tsTrailingSlash // the target path ends in "/"
+	tsRelDot        // a relative target "./target/." from the parent directory
 	numTS
 )
 
@@ -94,7 +96,7 @@ func evalC06(c *Ctx, cs *Case) {
 	doc := gen.Spell(f, gen.Canonical)
 	nontrivial := merged.Size() >= 2
 	extIdx := allExt()
-	states := []int{tsEmpty, tsMissing, tsPopulated, tsDefaultCwd, tsExplicitEmpty}
+	states := []int{tsEmpty, tsMissing, tsPopulated, tsDefaultCwd, tsExplicitEmpty, tsTrailingSlash, tsRelDot}
 	routes := []int{0, 1, 2, 3}
 	if cs.Kind != "exhaustive" {
 		extIdx = []int{r.Intn(len(ExtLists)), r.Intn(len(ExtLists))}
@@ -155,6 +157,10 @@ func c06Target(j *mon.Jail, st int) (target, prefix string, allowed []string) {
 		return "", j.Rel, nil
 	case tsExplicitEmpty:
 		return explicitEmptyTarget, j.Rel, nil
+	case tsTrailingSlash:
+		return j.Target + "/", j.Rel, nil
+	case tsRelDot:
+		return "./target/.", j.Rel, nil
 	}
 	return j.Target, j.Rel, nil
 }
@@ -186,6 +192,11 @@ func c06Success(c *Ctx, cs *Case, f, merged model.Forest, doc, fkey string, ei i
 			c.Inconclusive(cs, "chdir: "+err.Error())
 			return
 		}
+	} else if st == tsRelDot {
+		if err := withCwd(filepath.Dir(j.Target), call); err != nil {
+			c.Inconclusive(cs, "chdir: "+err.Error())
+			return
+		}
 	} else {
 		call()
 	}
@@ -195,7 +206,7 @@ func c06Success(c *Ctx, cs *Case, f, merged model.Forest, doc, fkey string, ei i
 	defer func() { cs.Entry, cs.Opt = "", nil }()
 	c.Eval(gen.HashString(fkey+"\x00"+rt.Name+strconv.Itoa(ei*10+st)), nontrivial)
 	c.SetAdd("entries", rt.Name)
-	c.SetAdd("target_states", []string{"empty", "missing-nested", "pre-populated", "default-cwd", "explicit-empty-string"}[st])
+	c.SetAdd("target_states", []string{"empty", "missing-nested", "pre-populated", "default-cwd", "explicit-empty-string", "trailing-slash", "relative-dot"}[st])
 	diff := mon.Diff(before, after)
 	det := map[string]any{"forest": fkey, "doc": doc, "ext": exts, "state": st, "diff": diff}
 	for _, o := range outs {
